@@ -144,6 +144,22 @@ def ev(a, env):
             return _num(math.exp(args[0]))
         if n in ("sin", "cos"):
             return _num(getattr(math, n)(args[0]))
+        if n == "tan":
+            if abs(math.cos(args[0])) < 1e-3:
+                raise IllConditioned("tan pole")
+            return _num(math.tan(args[0]))
+        if n == "arctan":
+            return _num(math.atan(args[0]))
+        if n in ("arcsin", "arccos"):
+            if abs(args[0]) > 0.999:
+                raise IllConditioned("arc domain")
+            return _num(math.asin(args[0]) if n == "arcsin" else math.acos(args[0]))
+        if n in ("sinwave", "coswave"):
+            # amplitude * sin|cos(2*pi*(t - start)/period); the environment supplies the start time
+            if abs(args[1]) < 1e-3:
+                raise IllConditioned("period")
+            f = math.sin if n == "sinwave" else math.cos
+            return _num(args[0] * f(2 * math.pi * (env.time() - getattr(env, "t0", 0.0)) / args[1]))
         raise KeyError(n)
     if k == "agg":
         v = np.array(env.vec(a[2]), dtype=float)
